@@ -101,6 +101,26 @@ def display_term(t):
         return res
 
 
+def term_tvars(t):
+    """List of type variables occurring in the term t."""
+    res = []
+    def add(T):
+        for tv in T.get_tvars():
+            if tv not in res:
+                res.append(tv)
+    def rec(t):
+        if t.is_var() or t.is_svar() or t.is_const():
+            add(t.T)
+        elif t.is_comb():
+            rec(t.fun)
+            rec(t.arg)
+        elif t.is_abs():
+            add(t.var_T)
+            rec(t.body)
+    rec(t)
+    return res
+
+
 class Constant(Item):
     """Axiomatic constant."""
     def __init__(self):
@@ -339,6 +359,8 @@ class Definition(Item):
             f, args = self.prop.lhs.strip_comb()
             if f != Const(self.name, self.type):
                 raise ItemException("Definition %s: wrong head of lhs" % self.name)
+            if not all(v.is_var() for v in args):
+                raise ItemException("Definition %s: arguments on lhs must be variables" % self.name)
             lhs_vars = set(v.name for v in args)
             rhs_vars = set(v.name for v in self.prop.rhs.get_vars())
             if len(lhs_vars) != len(args):
@@ -347,6 +369,18 @@ class Definition(Item):
                 raise ItemException(
                     "Definition %s: extra variables in rhs: %s" % (
                         self.name, ", ".join(v for v in rhs_vars - lhs_vars)))
+
+            # The definition must be conservative: the constant being defined
+            # does not occur on the rhs (at a type overlapping its own), and
+            # every type variable on the rhs occurs in the type of the constant.
+            for c in self.prop.rhs.get_consts():
+                if c.name == self.name and theory.overlap_type(c.T, self.type):
+                    raise ItemException("Definition %s: constant occurs in its own definition" % self.name)
+            extra_tvars = set(term_tvars(self.prop.rhs)) - set(self.type.get_tvars())
+            if extra_tvars:
+                raise ItemException(
+                    "Definition %s: type variables in rhs not in type of constant: %s" % (
+                        self.name, ", ".join(str(T) for T in extra_tvars)))
 
         except Exception as error:
             self.type = data['type']
